@@ -61,13 +61,13 @@ def scenario(rng, k, tier):
             # a second wildcard policy must be refused
             L.append(default_policy(rng, 0, ssrc_type=rng.choice([SSRC_ANY_OUT, SSRC_ANY_IN]), keys=[(keys[0], b"")], **cpk).line(6))
             L.append("add 1 6"); L.append("# W")
-        elif r < 0.64 and has_wild:
+        elif r < 0.62 and has_wild:
             # re-key the wildcard: clones (present and future) switch to the new key, explicit streams keep theirs
             ki = rng.randrange(nkeys)
             L.append(default_policy(rng, 0, ssrc_type=SSRC_ANY_OUT, keys=[(keys[ki], b"")], allow_repeat=wild_allow, **cpk).line(8))
             L.append("update 1 8"); L.append("# V")
             wild_key = ki
-        elif r < 0.66 and s in table:
+        elif r < 0.67 and s in table:
             # an update the library must refuse (window size it cannot handle): the SSRC keeps its stream and its key
             ki = rng.randrange(nkeys)
             bad = default_policy(rng, s, keys=[(keys[ki], b"")], allow_repeat=allow.get(s, False), **cpk); bad.window = rng.choice([10, 63, 40000])
